@@ -44,6 +44,8 @@ fn gen_day(rng: &mut Rng, month_hint: Option<u8>) -> Day {
             w: 1 + rng.below(5) as u8,
             d: rng.below(7) as u8,
         },
+        7 if rng.chance(1, 4) => Day::J1(*rng.pick(&[2u16, 58, 59, 60, 61, 62, 364])),
+        8 if rng.chance(1, 4) => Day::J0(*rng.pick(&[1u16, 57, 58, 59, 60, 61, 363, 364])),
         7 => Day::J1(match month_hint {
             Some(m) => ((m as u16 - 1) * 30 + 1 + rng.below(28) as u16).clamp(1, 365),
             None => 1 + rng.below(365) as u16,
@@ -99,6 +101,7 @@ pub fn gen_rule(rng: &mut Rng, in_class: bool, extended: bool, limit: i32) -> Ru
             _ => (1 + rng.below(12) as u8, 1 + rng.below(12) as u8),
         };
         let hint = rng.chance(9, 10);
+        let short = rng.chance(1, 12);
         let a = AltRule {
             std: LType { utoff: std_off, dst: false, abbr: gen_abbr(rng, false) },
             dst: LType { utoff: dst_off, dst: true, abbr: gen_abbr(rng, false) },
@@ -107,7 +110,24 @@ pub fn gen_rule(rng: &mut Rng, in_class: bool, extended: bool, limit: i32) -> Ru
             end: gen_day(rng, if hint { Some(me) } else { None }),
             end_time: gen_rule_time(rng, extended),
         };
-        if !in_class || a.in_class(14 * DAY) {
+        // a DST season of a few days between two numbered days
+        let a = if short {
+            let n = 5 + rng.below(350) as u16;
+            let len = 3 + rng.below(6) as u16;
+            let (x, y) = if rng.chance(1, 2) { (Day::J1(n), Day::J1((n + len).min(364))) } else { (Day::J0(n), Day::J0((n + len).min(363))) };
+            if rng.chance(1, 2) {
+                AltRule { start: x, end: y, ..a }
+            } else {
+                AltRule { start: y, end: x, ..a }
+            }
+        } else {
+            a
+        };
+        // seasons of a few days are unambiguous only when both days are given by number (the
+        // order of two weekday-based days less than a week apart flips from year to year)
+        let numbered = |d: &Day| !matches!(d, Day::M { .. });
+        let min_season = if numbered(&a.start) && numbered(&a.end) { 3 * DAY } else { 14 * DAY };
+        if !in_class || a.in_class(min_season) {
             return Rule::Alt(a);
         }
     }
@@ -147,6 +167,11 @@ pub fn gen_zone(rng: &mut Rng, cfg: &ZoneGenCfg) -> GenZone {
         5..=8 => 3 + rng.usize(5),
         _ => 8 + rng.usize(12),
     };
+    // "close" zones: all offsets inside a narrow band and transitions only a little further
+    // apart than the band is wide (hours to a few days) - still no two wall-clock windows overlap
+    let close = rng.chance(3, 20);
+    let band: i32 = *rng.pick(&[1, 900, 1800, 3600, 3600, 7200]);
+    let close_base = gen_utoff(rng, cfg.limit - band);
     let mut types: Vec<LType> = Vec::new();
     for _ in 0..ntypes {
         let t = if !types.is_empty() && rng.chance(1, 4) {
@@ -164,10 +189,16 @@ pub fn gen_zone(rng: &mut Rng, cfg: &ZoneGenCfg) -> GenZone {
         } else {
             LType { utoff: gen_utoff(rng, cfg.limit), dst: rng.chance(1, 3), abbr: gen_abbr(rng, false) }
         };
+        let t = if close {
+            let steps = [0, band, band / 2, band - band / 4];
+            LType { utoff: close_base + *rng.pick(&steps), ..t }
+        } else {
+            t
+        };
         types.push(t);
     }
 
-    let mut rule = if version >= 2 && rng.chance(3, 5) {
+    let mut rule = if version >= 2 && !close && rng.chance(3, 5) {
         Some(gen_rule(rng, true, version == 3, cfg.limit))
     } else {
         None
@@ -183,7 +214,7 @@ pub fn gen_zone(rng: &mut Rng, cfg: &ZoneGenCfg) -> GenZone {
     }
     .min(cfg.max_trans);
 
-    let tight = ntrans >= 2 && rng.chance(1, 20);
+    let tight = ntrans >= 2 && !close && rng.chance(1, 20);
     let v1 = version == 1;
     // start somewhere between 1850 and 2030, or (64-bit only) far out
     let mut t: i64 = if v1 {
@@ -201,6 +232,13 @@ pub fn gen_zone(rng: &mut Rng, cfg: &ZoneGenCfg) -> GenZone {
         if k > 0 {
             let step = if tight {
                 rng.range(1, 7200)
+            } else if close {
+                let b = band as i64;
+                match rng.below(10) {
+                    0..=4 => rng.range(b + 2, b + 7200),
+                    5..=7 => rng.range(DAY - 3600, DAY + 3600),
+                    _ => rng.range(b + 2, 3 * DAY),
+                }
             } else {
                 match rng.below(10) {
                     0..=5 => rng.range(150 * DAY, 220 * DAY),
